@@ -1,6 +1,7 @@
 """C04: interpolation of the hull at the grid (_get_interpolation_indices, _interpolate_curve), point-wise for a generic grid index."""
 from ..contracts.interpolation import InterpolateCurve, InterpolationIndices
 from ..contracts.to_simple import SimpleConstraints
+from ..contracts.to_eo import EqualizedOddsEntries
 from ..pyvc import verify
 
 
@@ -11,7 +12,11 @@ def items(rep):
                                       ("no_decrement_on_equality", verify.replace_expr("indices[1:] - 1", "indices[1:]"))]),
             (InterpolateCurve(), [("p0_p1_swapped", verify.replace_expr("x_values[interpolation_indices + 1] - x_grid", "x_grid - x_values[interpolation_indices]")),
                                   ("right_vertex_operation_taken_from_left", verify.replace_expr("content_values[interpolation_indices + 1]", "content_values[interpolation_indices]"))]),
-            (SimpleConstraints(), simple_canaries())]
+            (SimpleConstraints(), simple_canaries()),
+            (EqualizedOddsEntries(), [("p_ignore_relative_to_the_wrong_distance", verify.replace_expr("roc_result.y - roc_result.x", "roc_result.y")),
+                                      ("constant_prediction_at_y_best", verify.replace_expr("prediction_constant=self._x_best", "prediction_constant=self._y_best") if False else
+                                       verify.replace_expr("self._x_best", "self._y_best")),
+                                      ("difference_from_the_groups_own_tpr_dropped", verify.replace_expr("roc_result.y - self._y_best", "self._y_best"))])]
 
 
 def simple_canaries():
